@@ -38,6 +38,11 @@ def main():
         return 2
     from sim import runner
     if a.replay:
+        if not a.trace:
+            import logging
+            import warnings
+            logging.disable(logging.CRITICAL)
+            warnings.simplefilter('ignore')
         rp, res = runner.replay(a.replay, trace=a.trace, logs=a.trace)
         hit = [v for v in res.violations if v.signature() == rp['signature']]
         print(f"replay {a.replay}: family={rp['family']} seed={rp['seed']} ops={len(rp['case']['plan'])}")
